@@ -40,6 +40,30 @@ def run(ctx):
                 except ValueError:
                     pass
         hs += more
+    # longer histories than the exhaustive bound: the same innermost block under two different outer blocks (a cached
+    # merge must not survive the change of a dictionary below the top), and random walks of 6-12 events
+    ids = ["e", "a1", "A2", "a3", "b1", "ab", "cl", "ct", "ua", "UA"]
+    twins = [{"h": [rnd.choice(ids), ["enter", x], ["enter", h], [rnd.choice(["call", "notify", "batch"])], ["exitN"], [rnd.choice(["exitN", "exitE"])],
+                    ["enter", y], ["enter", h], [rnd.choice(["call", "notify", "batch"])], ["exitN"], ["exitN"], ["call"]]}
+             for x in ids for y in ids for h in ids if x != y]
+    rnd.shuffle(twins)
+    walks = []
+    for _ in range(150 if quick else 3000):
+        depth, w = 0, [rnd.choice(ids)]
+        for _k in range(rnd.randint(6, 12)):
+            op = rnd.choice(["enter", "enter", "exit", "req", "req", "close"])
+            if op == "enter" and depth < 3:
+                w.append(["enter", rnd.choice(ids)])
+                depth += 1
+            elif op == "exit" and depth > 0:
+                w.append([rnd.choice(["exitN", "exitE"])])
+                depth -= 1
+            elif op == "close":
+                w.append(["close"])
+            else:
+                w.append([rnd.choice(["call", "notify", "batch"])])
+        walks.append({"h": w})
+    hs += twins[:150 if quick else len(twins)] + walks
     nparts = 8
     parts = list(common.chunks(hs, (len(hs) + nparts - 1) // nparts))
     cmds, files = [], []
